@@ -43,7 +43,7 @@ CLS2 = {"cx": gops.CNOT, "cz": gops.CZ}
 CLSC = {"ccx": gops.ClassicalCNOT, "ccz": gops.ClassicalCZ, "mcr": gops.MeasurementCNOTandReset}
 COMPILERS = {"stabilizer": StabilizerCompiler, "dm": DensityMatrixCompiler}
 MODES = [0, 1, "probabilistic"]
-MAX_BRANCH_BITS = 10
+MAX_BRANCH_BITS = 12
 
 
 # ------------------------------------------------------------------ program -> real objects
@@ -89,9 +89,16 @@ def initial_state(init, n, backend):
     return QuantumState(R.dm(v0), rep_type="dm"), v0
 
 
+def snapshot(state_rep):
+    d = state_rep.data
+    if isinstance(d, np.ndarray):
+        return np.array(d, dtype=complex).copy()
+    return (np.array(d.table).copy(), np.array(d.phase).copy(), np.array(d.iphase).copy())
+
+
 def compile_traced(circuit, backend, mode, seed=None, init_state=None):
     """compile with the real compiler; returns (QuantumState, trace) with trace = [(op object, copy of the classical
-    register array after the op)] for every compile_one_gate call"""
+    register array after the op, copy of the state data after the op if the op measures)] per compile_one_gate call"""
     comp = COMPILERS[backend]()
     comp.measurement_determinism = mode
     trace = []
@@ -99,7 +106,8 @@ def compile_traced(circuit, backend, mode, seed=None, init_state=None):
 
     def monitored(state, op, n_quantum, q_index, classical_registers):
         r = real(state, op, n_quantum, q_index, classical_registers)
-        trace.append((op, np.array(classical_registers, dtype=float).copy()))
+        snap = snapshot(state.rep_data) if hasattr(op, "c_register") else None
+        trace.append((op, np.array(classical_registers, dtype=float).copy(), snap))
         return r
 
     comp.compile_one_gate = monitored
@@ -110,13 +118,9 @@ def compile_traced(circuit, backend, mode, seed=None, init_state=None):
 
 
 # ------------------------------------------------------------------ comparisons
-def stab_mismatch(state, v, n):
-    """None iff the returned tableau is a valid Clifford tableau whose n signed stabilizer rows all stabilise v"""
-    rep = state.rep_data
-    tab = rep.data
-    table = np.array(tab.table)
-    phase = np.array(tab.phase)
-    iph = np.array(tab.iphase)
+def stab_mismatch(data, v, n):
+    """None iff (table, phase, iphase) is a valid Clifford tableau whose n signed stabilizer rows all stabilise v"""
+    table, phase, iph = data
     if table.shape != (2 * n, 2 * n) or phase.shape != (2 * n,):
         return f"tableau shape {table.shape}/{phase.shape} for n={n}"
     if not R.clifford_valid(table, n):
@@ -126,14 +130,13 @@ def stab_mismatch(state, v, n):
     for i in range(n, 2 * n):
         if iph[i] % 4 != 0:
             return f"stabilizer row {i - n} carries a factor i (iphase={int(iph[i])}): not Hermitian"
-        if not R.stabilizes(v, table[i, :n], table[i, n:], phase[i]):
+        if not RC.stabilizes(v, table[i, :n], table[i, n:], phase[i]):
             lab = "".join("IXZY"[int(a) + 2 * int(b)] for a, b in zip(table[i, :n], table[i, n:]))
             return f"stabilizer row {i - n} = {'-' if phase[i] else '+'}{lab} does not stabilise the textbook state {np.round(v, 3).tolist()}"
     return None
 
 
-def dm_mismatch(state, v, n):
-    rho = np.array(state.rep_data.data)
+def dm_mismatch(rho, v, n):
     if rho.shape != (2**n, 2**n):
         return f"density matrix shape {rho.shape} for n={n}"
     want = R.dm(v)
@@ -142,18 +145,9 @@ def dm_mismatch(state, v, n):
     return None
 
 
-def mismatch(backend, state, v, n):
-    return stab_mismatch(state, v, n) if backend == "stabilizer" else dm_mismatch(state, v, n)
-
-
-def feasible_branches(n, aops, v0):
-    k = len(R.measuring(aops))
-    out = []
-    for bits in itertools.product([0, 1], repeat=k):
-        r = R.run_ops(n, aops, outcomes=list(bits), v0=v0)
-        if r is not None:
-            out.append((list(bits), r))
-    return out
+def mismatch(backend, data, v, n):
+    """data: snapshot() of a state representation"""
+    return stab_mismatch(data, v, n) if backend == "stabilizer" else dm_mismatch(data, v, n)
 
 
 def expected_cregs(nc, cregs):
@@ -163,9 +157,29 @@ def expected_cregs(nc, cregs):
     return a
 
 
+def abstract_of(op, n_photon):
+    """textbook reading of one real operation object handed to compile_one_gate (public attributes only)"""
+    def qi(reg, typ):
+        return reg if typ == "p" else n_photon + reg
+    nm = type(op).__name__
+    if nm in R.CLASS1:
+        return ("g", R.CLASS1[nm], qi(op.register, op.reg_type))
+    if nm == "CNOT":
+        return ("cx", qi(op.control, op.control_type), qi(op.target, op.target_type))
+    if nm == "CZ":
+        return ("cz", qi(op.control, op.control_type), qi(op.target, op.target_type))
+    k = {"ClassicalCNOT": "ccx", "ClassicalCZ": "ccz", "MeasurementCNOTandReset": "mcr"}.get(nm)
+    if k:
+        return (k, qi(op.control, op.control_type), qi(op.target, op.target_type), op.c_register)
+    if nm == "MeasurementZ":
+        return ("mz", qi(op.register, op.reg_type), op.c_register)
+    raise ValueError(f"unexpected operation {nm} reached compile_one_gate")
+
+
 def order_violation(spec, objs, trace):
     """the calls compile made, projected on every quantum register, are the program's ops on that register in program
-    order with every wrapper [g1..gk] expanded to gk, ..., g1 (last listed gate acts first)"""
+    order with every wrapper [g1..gk] expanded to gk, ..., g1 (last listed gate acts first); every measuring op object
+    of the program is compiled exactly once"""
     want = {}
     for op in spec["ops"]:
         k = op[0]
@@ -175,16 +189,18 @@ def order_violation(spec, objs, trace):
             for g in reversed(op[1]):
                 want.setdefault((op[2], op[3]), []).append(CLS1[g].__name__)
         elif k == "mz":
-            want.setdefault((op[1], op[2]), []).append("MeasurementZ")
+            want.setdefault((op[1], op[2]), []).append(f"MeasurementZ->c{op[3]}")
         else:
-            nm = (CLS2.get(k) or CLSC.get(k)).__name__
+            nm = (CLS2.get(k) or CLSC.get(k)).__name__ + (f"->c{op[5]}" if k in CLSC else "")
             want.setdefault((op[1], op[2]), []).append(nm + ".control")
             want.setdefault((op[3], op[4]), []).append(nm + ".target")
     got = {}
-    for op, _ in trace:
+    for op, _, _ in trace:
         nm = type(op).__name__
         if nm in ("Input", "Output"):
             continue
+        if hasattr(op, "c_register"):
+            nm += f"->c{op.c_register}"
         if hasattr(op, "control"):
             got.setdefault((op.control_type, op.control), []).append(nm + ".control")
             got.setdefault((op.target_type, op.target), []).append(nm + ".target")
@@ -192,12 +208,17 @@ def order_violation(spec, objs, trace):
             got.setdefault((op.reg_type, op.register), []).append(nm)
     if got != want:
         return f"operations applied per register {got} != program order {want}"
+    for i in RC.measuring_positions(spec):
+        c = sum(1 for (o, _, _) in trace if o is objs[i])
+        if c != 1:
+            return f"op #{i} {spec['ops'][i]} compiled {c} times"
     return None
 
 
 # ------------------------------------------------------------------ the monitored case (all aspects in one pass)
 KINDS = {"mz": "MeasurementZ", "ccx": "ClassicalCNOT", "ccz": "ClassicalCZ", "mcr": "MeasurementCNOTandReset"}
 ASPECTS = ["state", "order", "record_final"] + ["record_" + k for k in KINDS.values()]
+MAX_CANDIDATES = 256
 
 
 def s3_sensitive(inp, mode):
@@ -216,14 +237,18 @@ def s3_sensitive(inp, mode):
     return RC.float_sensitive(spec, mode, v0, True)
 
 
-def run_case(inp, backend, skip_s3_sensitive=True):
+def run_case(inp, backend, skip_s3_sensitive=True, finals=None):
     """returns {aspect: symptom or None} for one program on one backend, all three measurement settings.
+
+    The textbook run follows the order in which compile handed the operations to compile_one_gate; aspect `order`
+    demands that this order is consistent with the program (so the oracle is a textbook run of the program).
+    state:  the state after every measuring op and at the end equals the textbook state (forced modes: the forced run;
+            probabilistic: of at least one outcome branch of non-zero probability)
     record_<Kind>: the value found in the op's classical register right after an op of that kind was compiled equals
-    the outcome of that op in the textbook run (forced modes: the forced run; probabilistic: the outcome branch whose
-    textbook state the compiled state equals)."""
+            the outcome of that op in the textbook run(s) the compiled states are consistent with
+    record_final: the register array at the end equals the last outcome written to each register (0 if none)"""
     spec = inp["prog"]
     n = RC.n_qubits(spec)
-    aops = RC.abstract_ops(spec)
     mpos = RC.measuring_positions(spec)
     res = {a: None for a in ASPECTS}
 
@@ -235,12 +260,8 @@ def run_case(inp, backend, skip_s3_sensitive=True):
     for mode, seed in runs:
         if backend == "dm" and mode in (0, 1) and skip_s3_sensitive and s3_sensitive(inp, mode):
             continue
-        if mode in (0, 1) and inp.get("init") is None and not RC.forced_order_independent(spec):
-            continue  # several classical registers: forced results depend on the linearisation; only 'probabilistic' is demanded
-        if mode in (0, 1) and inp.get("init") is not None and spec["nc"] > 1:
-            continue
         circuit, objs = build_circuit(spec)
-        v0 = None
+        v0 = R.ket0(n)
         ist = None
         if inp.get("init") is not None:
             ist, v0 = initial_state(inp["init"], n, backend)
@@ -250,74 +271,93 @@ def run_case(inp, backend, skip_s3_sensitive=True):
         ov = order_violation(spec, objs, trace)
         if ov:
             fail("order", tag + ov)
+            continue  # no textbook run to compare with: the applied sequence is not the program
 
-        # the record: value of the op's classical register right after the op was compiled
-        rec = []
-        for i in mpos:
-            hit = [cr for (o, cr) in trace if o is objs[i]]
-            if len(hit) != 1:
-                fail("order", tag + f"op #{i} {spec['ops'][i]} compiled {len(hit)} times")
-                rec.append(None)
-            else:
-                x = float(hit[0][RC.creg_of(spec["ops"][i])])
-                rec.append(int(x) if x in (0.0, 1.0) else x)
+        # textbook run along the applied order; candidates = outcome branches consistent with every snapshot so far
+        pos_of = {id(objs[i]): i for i in mpos}
+        cands = [(v0, {}, {})]  # (vector, {program position: outcome}, cregs)
+        rec = {}
+        dead = False
+        for op, cr, snap in trace:
+            if type(op).__name__ in ("Input", "Output"):
+                continue
+            a = abstract_of(op, spec["np"])
+            if a[0] not in RC.MEASURING:
+                cands = [(R.run_ops(n, [a], v0=v)[0], o, c) for v, o, c in cands]
+                continue
+            i = pos_of[id(op)]
+            x = float(cr[op.c_register])
+            rec[i] = int(x) if x in (0.0, 1.0) else x
+            new = []
+            for v, o, c in cands:
+                if mode in (0, 1):
+                    w, outs, cc = R.run_ops(n, [a], force=mode, v0=v)
+                    new.append((w, {**o, i: outs[0]}, {**c, **cc}))
+                else:
+                    for bit in (0, 1):
+                        r = R.run_ops(n, [a], outcomes=[bit], v0=v)
+                        if r is not None:
+                            new.append((r[0], {**o, i: bit}, {**c, **r[2]}))
+            keep = [t for t in new if mismatch(backend, snap, t[0], n) is None]
+            if not keep:
+                fail("state", tag + f"state right after op #{i} {spec['ops'][i]} is not the textbook state of any of the {len(new)} outcome branch(es) possible there; vs outcomes {new[0][1]}: " + str(mismatch(backend, snap, new[0][0], n)))
+                dead = True
+                break
+            cands = keep[:MAX_CANDIDATES]
+        if dead:
+            continue
+        fin = snapshot(state.rep_data)
+        if finals is not None and mode in (0, 1):
+            finals[mode] = fin
+        keep = [t for t in cands if mismatch(backend, fin, t[0], n) is None]
+        if not keep:
+            fail("state", tag + f"final state is not the textbook state (outcomes {cands[0][1]}): " + str(mismatch(backend, fin, cands[0][0], n)))
+            continue
+
+        # record: kind K is blamed iff in EVERY textbook run consistent with the compiled states some op of kind K has a
+        # register value != its outcome
         final = trace[-1][1] if trace else np.zeros(spec["nc"])
-
-        def judge_record(branches, what):
-            """branches: [(outcomes, cregs)] of the textbook runs the compiled state is consistent with (one in forced
-            modes).  Kind K is blamed iff in EVERY such run some op of kind K has a register value != its outcome."""
-            exact = [b for b in branches if b[0] == rec]
-            if exact:
-                if not any(np.array_equal(final, expected_cregs(spec["nc"], cr)) for _, cr in exact):
-                    fail("record_final", tag + f"final classical registers {final.tolist()} != {expected_cregs(spec['nc'], exact[0][1]).tolist()}")
-                return
-            bad = [{j for j in range(len(mpos)) if rec[j] != outs[j]} for outs, _ in branches]
-            kinds = [{KINDS[spec["ops"][mpos[j]][0]] for j in b} for b in bad]
-            blamed = set.intersection(*kinds)
-            k0 = min(range(len(bad)), key=lambda t: len(bad[t]))
-            if not blamed:
-                blamed = kinds[k0]
-            for K in blamed:
-                j = next(j for j in sorted(bad[k0]) if KINDS[spec["ops"][mpos[j]][0]] == K) if K in kinds[k0] else None
-                at = f"after op #{mpos[j]} {spec['ops'][mpos[j]]} holds {rec[j]}, but its outcome is {branches[k0][0][j]}" if j is not None else "disagrees"
-                fail("record_" + K, tag + f"classical register {at} in {what} (record after each measuring op {rec} vs outcomes {branches[k0][0]})")
-
-        if mode in (0, 1):
-            v, outs, cregs = R.run_ops(n, aops, force=mode, v0=v0)
-            m = mismatch(backend, state, v, n)
-            if m:
-                fail("state", tag + f"forced outcomes {outs}: " + m)
-            judge_record([(outs, cregs)], "the textbook forced run")
-        else:
-            # state: equals the textbook state of SOME feasible outcome branch; record: equals that branch
-            br = feasible_branches(n, aops, v0)
-            matching = [(bits, r) for bits, r in br if mismatch(backend, state, r[0], n) is None]
-            if not matching:
-                fail("state", tag + f"state equals the textbook state of none of the {len(br)} feasible outcome branches; vs branch {br[0][0]}: " + str(mismatch(backend, state, br[0][1][0], n)))
-            else:
-                judge_record([(r[1], r[2]) for _, r in matching], f"every outcome branch the compiled state is consistent with ({len(matching)} of {len(br)} feasible)")
+        exact = [t for t in keep if t[1] == rec]
+        if exact:
+            if not any(np.array_equal(final, expected_cregs(spec["nc"], t[2])) for t in exact):
+                fail("record_final", tag + f"final classical registers {final.tolist()} != {expected_cregs(spec['nc'], exact[0][2]).tolist()}")
+            continue
+        bad = [{i for i in mpos if rec[i] != t[1][i]} for t in keep]
+        kinds = [{KINDS[spec["ops"][i][0]] for i in b} for b in bad]
+        blamed = set.intersection(*kinds)
+        k0 = min(range(len(bad)), key=lambda t: len(bad[t]))
+        if not blamed:
+            blamed = kinds[k0]
+        for K in blamed:
+            i = next((i for i in sorted(bad[k0]) if KINDS[spec["ops"][i][0]] == K), None)
+            at = f"after op #{i} {spec['ops'][i]} holds {rec[i]}, but its outcome is {keep[k0][1][i]}" if i is not None else "disagrees"
+            fail("record_" + K, tag + f"classical register {at} (register value after each measuring op {[rec[i] for i in mpos]} vs outcomes {[keep[k0][1][i] for i in mpos]}; {len(keep)} textbook run(s) consistent with the compiled states)")
     return res
 
 
-def agree_case(inp):
+def agree_case(inp, finals=None):
     """both real backends, forced modes (same branch): every signed stabilizer row g of the tableau fixes rho: g rho = rho"""
     spec = inp["prog"]
     n = RC.n_qubits(spec)
     for mode in (0, 1):
-        if s3_sensitive(inp, mode) or not RC.forced_order_independent(spec):
+        if s3_sensitive(inp, mode):
             continue
-        c1, _ = build_circuit(spec)
-        c2, _ = build_circuit(spec)
-        s1, _ = compile_traced(c1, "stabilizer", mode)
-        s2, _ = compile_traced(c2, "dm", mode)
-        tab = s1.rep_data.data
-        rho = np.array(s2.rep_data.data)
-        table, phase, iph = np.array(tab.table), np.array(tab.phase), np.array(tab.iphase)
+        if finals is not None:
+            if mode not in finals[0] or mode not in finals[1]:
+                continue  # a backend failed before the end: reported by its own items
+            (table, phase, iph), rho = finals[0][mode], finals[1][mode]
+        else:
+            c1, _ = build_circuit(spec)
+            c2, _ = build_circuit(spec)
+            s1, _ = compile_traced(c1, "stabilizer", mode)
+            s2, _ = compile_traced(c2, "dm", mode)
+            table, phase, iph = snapshot(s1.rep_data)
+            rho = snapshot(s2.rep_data)
         if abs(np.trace(rho) - 1) > 1e-8:
             return f"[mode={mode}] trace(rho)={np.trace(rho)}"
         for i in range(n, 2 * n):
-            g = R.pauli(table[i, :n], table[i, n:], phase[i]) * (1j) ** int(iph[i])
-            if not np.allclose(g @ rho, rho, atol=1e-8):
+            grho = np.stack([RC.pauli_apply(rho[:, c], table[i, :n], table[i, n:], phase[i], iph[i]) for c in range(2**n)], axis=1)
+            if not np.allclose(grho, rho, atol=1e-8):
                 return f"[mode={mode}] stabilizer row {i - n} (x|z|r)={table[i].tolist()}|{int(phase[i])} of the stabilizer backend does not fix the density-matrix backend's state (diag {np.round(np.real(np.diag(rho)), 4).tolist()})"
     return None
 
@@ -341,11 +381,12 @@ for _b in ("stabilizer", "dm"):
 def both_backends(inp):
     """one pass computing every aspect (used by run() to avoid compiling each program once per item)"""
     out = {}
-    for b in ("stabilizer", "dm"):
-        r = run_case(inp, b)
+    fins = ({}, {})
+    for k, b in enumerate(("stabilizer", "dm")):
+        r = run_case(inp, b, finals=fins[k])
         for a in ASPECTS:
             out[f"{b}.{a}"] = r[a]
-    out["agree"] = agree_case(inp)
+    out["agree"] = agree_case(inp, fins)
     return out
 
 
@@ -454,13 +495,12 @@ def reset_case(inp):
             circuit, _ = build_circuit(spec)
             st, _ = compile_traced(circuit, backend, mode, seed)
             if backend == "dm":
-                rho = np.array(st.rep_data.data)
+                rho = snapshot(st.rep_data)
                 ez = np.real(np.trace(zc @ rho))
                 if abs(ez - 1) > 1e-8:
                     return f"[{backend} mode={mode}] <Z> on the reset control qubit {c} is {ez:.4f}, not +1"
             else:
-                tab = st.rep_data.data
-                table, phase = np.array(tab.table), np.array(tab.phase)
+                table, phase, _ = snapshot(st.rep_data)
                 # +Z_c is in the stabilizer group  <=>  Z_c commutes with all stabilizer rows and the state it fixes has <Z_c>=+1
                 v = R.stabilizer_state(table[n:, :n], table[n:, n:], phase[n:])
                 if v is None:
